@@ -498,3 +498,14 @@ pub proof fn lemma_perm_conj(s1: Seq<Option<BoundSet>>, s2: Seq<Option<BoundSet>
         assert(s2[j] is Some);
     }
 }
+/// C01 "parsing may fail only when the text contains no valid comparator or when no version at all could satisfy it":
+/// `range_set_check` fails exactly when no alternative is left, and an alternative contributes nothing only if it has no comparator
+/// or nothing lies within all of its comparators
+pub proof fn lemma_c01_parse_failure(alts: Seq<Seq<Option<BoundSet>>>, rs: Seq<Seq<BoundSet>>, k: int, v: VKey)
+    requires alts.len() == rs.len(), 0 <= k < alts.len(),
+        forall|i: int| 0 <= i < alts.len() ==> conj_post(#[trigger] alts[i], rs[i]),
+        forall|i: int| 0 <= i < rs.len() ==> (#[trigger] rs[i]).len() == 0,      // the flattened list of alternatives is empty
+    ensures !has_some(alts[k], alts[k].len() as int) || !all_within(alts[k], alts[k].len() as int, v)
+{
+    assert(conj_post(alts[k], rs[k]));
+}
